@@ -1450,14 +1450,14 @@ pub mod command_m {
 //@rule X2.vis * s/pub\(crate\)/pub/
 //@end
     impl<Effect, Event> CommandSink<Effect, Event> {
-//@extract id=CommandSink::start_send file=crux_core/src/command/stream.rs within="impl<Effect, Event> Sink<CommandOutput<Effect, Event>> for CommandSink<Effect, Event>" item="fn start_send" props=C01+C03
+//@extract id=CommandSink::start_send file=crux_core/src/command/stream.rs within="impl<Effect, Event> Sink<CommandOutput<Effect, Event>> for CommandSink<Effect, Event>" item="fn start_send" props=C01+C03+C04
 //@expect fn start_send( self: Pin<&mut Self>, item: CommandOutput<Effect, Event>, ) -> Result<(), Self::Error>
 //@sig pub fn start_send(&mut self, Tracked(w): Tracked<&mut World>, item: CommandOutput<Effect, Event>) -> (r: Result<(), HostedCommandError>)
 //@contract
             ensures
                 r is Ok,
-                item matches CommandOutput::Effect(e) ==> pushed(*old(w), *final(w), old(self).effects.role(), val_id(e)), // [C01/CommandSink::start_send/an-effect-goes-to-the-hosts-effect-channel-exactly-once]
-                item matches CommandOutput::Event(e) ==> pushed(*old(w), *final(w), old(self).events.role(), val_id(e)), // [C01+C03/CommandSink::start_send/an-event-goes-to-the-hosts-event-channel-exactly-once]
+                item matches CommandOutput::Effect(e) ==> pushed(*old(w), *final(w), old(self).effects.role(), val_id(e)), // [C01+C04/CommandSink::start_send/an-effect-goes-to-the-hosts-effect-channel-exactly-once]
+                item matches CommandOutput::Event(e) ==> pushed(*old(w), *final(w), old(self).events.role(), val_id(e)), // [C01+C03+C04/CommandSink::start_send/an-event-goes-to-the-hosts-event-channel-exactly-once]
                 *final(self) == *old(self),
 //@rule X8.closure-wildcard * s/\|_\|/|_e|/
 //@end
@@ -1521,16 +1521,16 @@ pub mod command_m {
             && self.context.effects.role() is CEffects && self.context.events.role() is CEvents && self.context.tasks.role() is CSpawn
         }
 
-//@extract id=Command::new file=crux_core/src/command/mod.rs within="impl<Effect, Event> Command<Effect, Event>" item="fn new" props=C01+C06
+//@extract id=Command::new file=crux_core/src/command/mod.rs within="impl<Effect, Event> Command<Effect, Event>" item="fn new" props=C01+C04+C06
 //@expect pub fn new<F, Fut>(create_task: F) -> Self where F: FnOnce(CommandContext<Effect, Event>) -> Fut, Fut: Future<Output = ()> + Send + 'static,
 //@sig pub fn new<F, Fut>(Tracked(w): Tracked<&mut World>, create_task: F) -> (r: Self) where F: FnOnce(CommandContext<Effect, Event>) -> Fut,
 //@contract
             ensures
-                r.wf(), // [C01+C06/Command::new/the-queue-ends-the-context-and-the-abort-flag-are-the-new-commands-own]
-                final(w).c_ready == 1, // [C01/Command::new/the-main-task-is-made-ready-exactly-once]
-                !(r.tasks@.dom() =~= Set::<usize>::empty()) && (forall|k1: usize, k2: usize| #![auto] r.tasks@.dom().contains(k1) && r.tasks@.dom().contains(k2) ==> k1 == k2), // [C01/Command::new/holds-exactly-the-main-task]
-                !final(w).c_aborted, // [C06/Command::new/starts-not-aborted]
-                is_quiet(create_task) ==> final(w).c_spawn == 0 && final(w).c_events.len() == 0 && final(w).c_effects.len() == 0, // [C01/Command::new/starts-with-empty-queues]
+                r.wf(), // [C01+C04+C06/Command::new/the-queue-ends-the-context-and-the-abort-flag-are-the-new-commands-own]
+                final(w).c_ready == 1, // [C01+C04/Command::new/the-main-task-is-made-ready-exactly-once]
+                !(r.tasks@.dom() =~= Set::<usize>::empty()) && (forall|k1: usize, k2: usize| #![auto] r.tasks@.dom().contains(k1) && r.tasks@.dom().contains(k2) ==> k1 == k2), // [C01+C04/Command::new/holds-exactly-the-main-task]
+                !final(w).c_aborted, // [C04+C06/Command::new/starts-not-aborted]
+                is_quiet(create_task) ==> final(w).c_spawn == 0 && final(w).c_events.len() == 0 && final(w).c_effects.len() == 0, // [C01+C04/Command::new/starts-with-empty-queues]
 //@rule X6.channel-role 1 s/let \(effect_sender, effect_receiver\) = crossbeam_channel::unbounded\(\);/let (effect_sender, effect_receiver) = new_channel(Tracked(w), Ghost(Role::CEffects));/
 //@rule X6.channel-role 1 s/let \(event_sender, event_receiver\) = crossbeam_channel::unbounded\(\);/let (event_sender, event_receiver) = new_channel(Tracked(w), Ghost(Role::CEvents));/
 //@rule X6.channel-role 1 s/let \(ready_sender, ready_receiver\) = crossbeam_channel::unbounded\(\);/let (ready_sender, ready_receiver) = new_channel(Tracked(w), Ghost(Role::CReady));/
@@ -1543,25 +1543,25 @@ pub mod command_m {
 //@rule X6.user-code 1 s/create_task\(context\.clone\(\)\)\.boxed\(\)/boxed(call_task_maker(Tracked(w), create_task, context.clone()))/
 //@end
 
-//@extract id=Command::done file=crux_core/src/command/mod.rs within="impl<Effect, Event> Command<Effect, Event>" item="fn done" props=C01+C07
+//@extract id=Command::done file=crux_core/src/command/mod.rs within="impl<Effect, Event> Command<Effect, Event>" item="fn done" props=C01+C04+C07
 //@expect pub fn done() -> Self
 //@sig pub fn done(Tracked(w): Tracked<&mut World>) -> (r: Self)
 //@contract
             ensures
                 r.wf(),
-                final(w).c_ready == 1 && final(w).c_spawn == 0 && final(w).c_events.len() == 0 && final(w).c_effects.len() == 0 && !final(w).c_aborted, // [C01+C07/Command::done/a-new-command-with-one-ready-task-and-nothing-queued]
+                final(w).c_ready == 1 && final(w).c_spawn == 0 && final(w).c_events.len() == 0 && final(w).c_effects.len() == 0 && !final(w).c_aborted, // [C01+C04+C07/Command::done/a-new-command-with-one-ready-task-and-nothing-queued]
                 !(r.tasks@.dom() =~= Set::<usize>::empty()) && (forall|k1: usize, k2: usize| #![auto] r.tasks@.dom().contains(k1) && r.tasks@.dom().contains(k2) ==> k1 == k2),
 //@rule X5.ready 1 s/Command::new\(\|_\w*\| futures::future::ready\(\(\)\)\)/Command::new(Tracked(w), quiet(|_ctx: CommandContext<Effect, Event>| -> (res: ReadyFuture) { ready_future() }))/
 //@end
 
-//@extract id=Command::all file=crux_core/src/command/mod.rs within="impl<Effect, Event> Command<Effect, Event>" item="fn all" props=C01+C06
+//@extract id=Command::all file=crux_core/src/command/mod.rs within="impl<Effect, Event> Command<Effect, Event>" item="fn all" props=C01+C04+C06
 //@expect pub fn all<I>(commands: I) -> Self where I: IntoIterator<Item = Self>, Effect: Unpin, Event: Unpin,
 //@sig pub fn all(Tracked(w): Tracked<&mut World>, commands: Vec<Self>) -> (r: Self)
 //@contract
             ensures
-                r.wf(), // [C06/Command::all/the-result-is-a-command-of-its-own-not-one-of-the-given-ones]
-                final(w).c_spawn == commands.len(), // [C01+C06/Command::all/every-given-command-is-hosted-by-its-own-task-of-the-new-command]
-                final(w).c_ready == 1 && !final(w).c_aborted && final(w).c_events.len() == 0 && final(w).c_effects.len() == 0, // [C06/Command::all/the-new-command-starts-unaborted-with-nothing-queued]
+                r.wf(), // [C04+C06/Command::all/the-result-is-a-command-of-its-own-not-one-of-the-given-ones]
+                final(w).c_spawn == commands.len(), // [C01+C04+C06/Command::all/every-given-command-is-hosted-by-its-own-task-of-the-new-command]
+                final(w).c_ready == 1 && !final(w).c_aborted && final(w).c_events.len() == 0 && final(w).c_effects.len() == 0, // [C04+C06/Command::all/the-new-command-starts-unaborted-with-nothing-queued]
 //@bind acc (\w+)\.spawn\(
 //@rule X6.world 1 s/Command::done\(\)/Command::done(Tracked(w))/
 //@rule X1.for-iterator 1 s/for (\w+) in commands \{/for \1 in it: commands {/
@@ -1570,19 +1570,19 @@ pub mod command_m {
 //@loop 1
                 invariant
                     $acc.wf(),
-                    w.c_spawn == it.index@, // [C01+C06/Command::all/loop/one-task-queued-per-command-taken-so-far]
+                    w.c_spawn == it.index@, // [C01+C04+C06/Command::all/loop/one-task-queued-per-command-taken-so-far]
                     w.c_ready == 1 && !w.c_aborted && w.c_events.len() == 0 && w.c_effects.len() == 0,
 //@end
 
-//@extract id=Command::and file=crux_core/src/command/mod.rs within="impl<Effect, Event> Command<Effect, Event>" item="fn and" props=C01+C06
+//@extract id=Command::and file=crux_core/src/command/mod.rs within="impl<Effect, Event> Command<Effect, Event>" item="fn and" props=C01+C04+C06
 //@expect pub fn and(mut self, other: Self) -> Self where Effect: Unpin, Event: Unpin,
 //@sig pub fn and(self, Tracked(w): Tracked<&mut World>, other: Self) -> (r: Self)
 //@contract
             requires
                 self.wf(),
             ensures
-                r == self, // [C06/Command::and/the-result-is-this-command-itself]
-                *final(w) == (World { c_spawn: old(w).c_spawn + 1, ..*old(w) }), // [C01+C06/Command::and/the-other-command-is-hosted-by-one-new-task-and-nothing-else-changes]
+                r == self, // [C04+C06/Command::and/the-result-is-this-command-itself]
+                *final(w) == (World { c_spawn: old(w).c_spawn + 1, ..*old(w) }), // [C01+C04+C06/Command::and/the-other-command-is-hosted-by-one-new-task-and-nothing-else-changes]
 //@rule X5.hosting-closure 1 s/self\.spawn\(\s*(?:move )?\|(\w+)\| (\w+)\.host\(\1\.effects, \1\.events\)\.map\(\|_\w*\| \(\)\)\s*\)/self.spawn(Tracked(w), quiet(|\1: CommandContext<Effect, Event>| -> (res: HostFuture) { host_future(\2, \1) }))/
 //@rule X19.mut-self * s/\bself\b/this/
 //@entry
